@@ -93,18 +93,23 @@ def _floaty(scales, j):
     return False
 
 
-def scale_props(scales, with_count, status=None):
-    """[[name, type, value], ...] as LabVIEW lays the properties out."""
-    out = []
+def scale_props(scales, with_count, status=None, order='asc'):
+    """[[name, type, value], ...] as LabVIEW lays the properties out (order='asc'), or with the scales listed from the
+    output scale downwards ('desc': tools that emit sorted or reversed property maps) - the order of properties in an
+    object's metadata carries no meaning."""
+    head = []
     if with_count:
-        out.append(['NI_Number_Of_Scales', 'u32', len(scales)])
+        head.append(['NI_Number_Of_Scales', 'u32', len(scales)])
     if status is not None:
-        out.append(['NI_Scaling_Status', 'str', status])
+        head.append(['NI_Scaling_Status', 'str', status])
+    blocks = []
     for i, s in enumerate(scales):
         t = s['type']
         if t in ('daqmx', 'hole'):
             continue
         p = 'NI_Scale[%d]_' % i
+        out = []
+        blocks.append(out)
         out.append([p + 'Scale_Type', 'str', t])
         if t == 'Linear':
             # a coefficient may be stored with an integer type (TdmsWriter does that for a Python int)
@@ -137,7 +142,9 @@ def scale_props(scales, with_count, status=None):
         else:
             out.append([p + '%s_Left_Operand_Input_Source' % t, 'u32', s['left']])
             out.append([p + '%s_Right_Operand_Input_Source' % t, 'u32', s['right']])
-    return out
+    if order == 'desc':
+        blocks = blocks[::-1]
+    return head + [x for b in blocks for x in b]
 
 
 # ------------------------------------------------------------------------------ reference evaluator
